@@ -31,3 +31,4 @@ def rules(ctx):
     S.durability_guard_rules(ctx)
     S.survey2_rules(ctx)
     S.oldest_search_rules(ctx)
+    S.survey3_rules(ctx)
